@@ -46,6 +46,8 @@ type histRun struct {
 	msources  map[string]*msJob // C18: the MultiSource of a job lives as long as the hub (like a scheduled job's pipeline)
 	bkDone    chan string       // C20: a backup run that is held open on a pipe (backupStart … backupEnd)
 	bkPipe    *os.File
+	ctxStore  *server.Store // the contextual store of a job with a JavaScript transform
+	ctxOf     *Hub
 }
 
 func toEntity(m M) *server.Entity {
